@@ -1,7 +1,7 @@
 //@ item signing_key.rs const AWS4_REQUEST
 //@ end
-#[derive(Clone, Copy, Debug, Eq, PartialEq)]
-pub struct KeyTooLongError;
+//@ item error.rs struct KeyTooLongError
+//@ end
 
 //@ item signing_key.rs struct KSecretKey
 //@ end
@@ -36,10 +36,12 @@ impl<const M: usize> FromStr for KSecretKey<M> {
 
 //@ fn signing_key.rs impl<const M: usize> FromStr for KSecretKey<M> :: from_str
 //@ params raw
-//@ props C08 C06
+//@ props C08 C06 C17
+//@ consumers C17
 //@ ret r
 //@ spec
     ensures
+        r.is_err() ==> r == Err::<Self, KeyTooLongError>(KeyTooLongError), //# C17 name=refusal_carries_no_part_of_the_secret
         r.is_ok() <==> raw.spec_bytes().len() + 4 <= M, //# C06 name=accept_iff_fits
         r.is_ok() ==> r.unwrap().secret() == raw.spec_bytes(), //# C06 name=secret_round_trip
 //@ bodystart
